@@ -17,7 +17,7 @@ PROPS = {
         "rule": "all 2^9 subsets of {elemhide,generichide,jsinject,document,urlblock,genericblock,content,extension,important} "
                 "on an exception rule (direct GetCosmeticOption and through Engine.MatchRequest+GetCosmeticResult), on a blocking rule, as a referrer-only (document) rule with no basic rule (struct and engine), with replace/csp/stealth rules present, "
                 "and no basic rule, enumerated exhaustively; plus rapid-sampled written orders/patterns. Oracle: All minus union(disabled(m)); "
-                "monotone under adding any modifier. Non-trivial = exception with >=2 modifiers of which at least one disables something; distinct by (kind, modifier set).",
+                "monotone under adding any modifier; the option is the same before and after GetBasicResult is evaluated; through the engine the selectors of generic, specific, wildcard-TLD and generic-with-excluded-domains rules are present iff the option says so. Non-trivial = exception with >=2 modifiers of which at least one disables something; distinct by (kind, modifier set).",
         "exhaustive_note": "all 512 modifier subsets x {exception, engine, block, referrer-only (struct, engine), with other rule kinds} + absent rule",
         "technique": "exhaustive enumeration of the finite modifier-subset space + rapid sampling against a set-algebra oracle",
         "level_text": "Exhaustive over the finite space the property quantifies over (512 subsets x 3 rule kinds + absent rule), so within that space the property is decided; sampled for written order and pattern.",
@@ -26,11 +26,11 @@ PROPS = {
     },
     "C07": {
         "shards": (2, 8),
-        "rule": "pool = full product of the features IsHigherPriority reads (exception x important x {no,permitted,restricted-only} domain x 4 content-type shapes x 4 flag options x {no,permitted,negated} dnstype x ctag x client x denyallow = 10368 rules). "
+        "rule": "pool = full product of the features IsHigherPriority reads (exception x important x {no,permitted,restricted-only} domain x 4 content-type shapes x 4 flag options x {no,permitted,negated} dnstype x ctag x client x denyallow = 10368 rules, plus ~other and subdocument,~ping in the content-type dimension) and a second pool of 1024 exceptions carrying every subset of {elemhide,jsinject,urlblock,content,extension,genericblock,generichide,document} x important x $domain ($document counts as the five modifiers it abbreviates). "
                 "Exhaustive: all ordered pairs of the pool (irreflexive, asymmetric, agreement with documented rank (class, specific, #modifiers)), every 'add one modifier' pair, all triples over a strided sub-pool (transitivity of > and of incomparability). "
                 "rapid: sampled 2..5-rule law cases, and candidate lists of 2..6 near-tie rules fed in ALL permutations to NewMatchingResult and GetDNSBasicRule (winner not outranked, maximal documented rank, same rank for every order). "
                 "Non-trivial/distinct = a pool rule whose full comparison row was checked, or a distinct candidate multiset for the selection check.",
-        "exhaustive_note": "pairs: 10368x10368; add-modifier pairs; triples over the sub-pool (stride 24 quick / 12 thorough)",
+        "exhaustive_note": "pairs over the whole feature pool and over the 1024 document-level exceptions; add-modifier pairs; triples over the sub-pool (stride 24 quick / 12 thorough)",
         "technique": "exhaustive enumeration over a feature-product pool + rapid-generated candidate lists over all permutations, oracle = documented rank tuple",
         "level_text": "Pairs are decided exhaustively over the pool that spans every feature the comparison reads; triples exhaustively over a sub-pool; selection sampled with all permutations.",
         "level_note": "Trusted: harness rank function (class, domain-specific, modifier count) derived from the rule text; $redirect is not parseable in this version and is not covered.",
@@ -86,7 +86,7 @@ PROPS = {
     "C02": {
         "shards": (4, 16),
         "rule": "rapid: 1..3 lists mixing host-level network rules, browser-only rules ($domain, third-party, match-case, mixed content types, document-level exceptions, popup), $dnsrewrite rules, badfilter twins, hosts lines (v4, v6, IPv4-mapped, several names, a name on several lines), bare domains, over a host universe with FastHash-colliding names; 4..12 DNS requests each (type, client name/IP, sorted tags) steered to the rules. "
-                "Oracle: linear scan: NetworkRules == applicable(model) AND fresh Match; basic rule nil iff reference class none, else same class and member of the matching set, host slices empty; otherwise HostRulesV4/V6 == lines naming the host split by textual address family; matched == basic or host entry. Non-trivial = non-empty answer from a list containing both hosts lines and network rules; distinct by (entries, request).",
+                "Oracle: linear scan: NetworkRules == applicable(model) AND text-level reference match (masks and /regex/ patterns evaluated on the rule text; fresh Match only for model-less lines); basic rule nil iff reference class none, else same class and member of the matching set, host slices empty; otherwise HostRulesV4/V6 == lines naming the host split by textual address family; matched == basic or host entry. Non-trivial = non-empty answer from a list containing both hosts lines and network rules; distinct by (entries, request).",
         "technique": "differential property-based testing (rapid): DNS engine vs reference resolution by linear scan",
         "level_text": "Generated search with a reference resolution; hash-collision buckets are forced by construction.",
         "level_note": "Trusted: NetworkRule.Match/NewRule for classification of a line; applicability is computed on the generated model, not by IsHostLevelNetworkRule.",
@@ -94,7 +94,7 @@ PROPS = {
     },
     "C06": {
         "shards": (4, 16),
-        "rule": "rapid: multisets of 1..6 request candidates (all matching one fixed request) and 0..4 referrer candidates drawn from the product {exception, important, $domain-specific, content type, urlblock/genericblock/document/elemhide/jsinject, $dnsrewrite, $stealth, $badfilter twins}, and a DNS flavour with host-level candidates. Each multiset is fed in ALL permutations (n<=5; rotations+reversals above) of request and referrer rules to NewMatchingResult / GetDNSBasicRule, and in 1..3 generated line orders and 1..3-way list splits through Engine.MatchRequest, NetworkEngine.Match and DNSEngine.MatchRequest. "
+        "rule": "rapid: multisets of 1..6 request candidates (all matching one fixed request) and 0..4 referrer candidates drawn from the product {exception, important, $domain-specific, content type, urlblock/genericblock/document/elemhide/jsinject, $dnsrewrite, $stealth, $badfilter twins}, and a DNS flavour with host-level candidates. Each multiset is fed in ALL permutations (n<=5; rotations+reversals above) of request and referrer rules to NewMatchingResult / GetDNSBasicRule, and in 1..3 generated line orders and 1..3-way list splits through Engine.MatchRequest, NetworkEngine.Match and DNSEngine.MatchRequest; optionally the lists also hold exceptions for ANOTHER page of the referrer's host, and the same engine is asked from that page, from the referrer proper and from that page again, each against its own reference class. "
                 "Oracle: documented precedence computed from the rule texts; result never a rewrite/badfilter/stealth rule. Non-trivial = >=2 distinct verdict classes among candidates or a document-level exception on the referrer; distinct by multiset.",
         "technique": "property-based testing (rapid) over candidate multisets x all permutations against a text-level precedence model",
         "level_text": "Order-independence is decided for every generated multiset by exhausting its permutations (up to 5 rules); multisets are sampled from the feature product.",
@@ -153,26 +153,26 @@ PROPS = {
         "shards": (4, 16),
         "fuzz": [("FuzzC11", 90)],
         "rule": "rapid: 1..4 lists with distinct ids from {-2^31,-1,0,1,2^31-1,...}/random int32, IgnoreCosmetic on/off, content assembled from a line pool (valid network/host/cosmetic rules, comments, blanks, whitespace-only and invalid lines, multi-byte UTF-8, invalid UTF-8, NUL bytes, tabs, lines of 4094..9000 bytes around the 4 KiB read buffer) with LF / CRLF / mixed endings, with or without final newline; every content is loaded String-backed and File-backed; thorough adds native fuzzing over raw content bytes. "
-                "Oracle: scanned (kind, text, list id, index) sequence == reference parse (split after every LF, NewRule per line, index = id<<32 | offset); indexes pairwise distinct; after the scan RetrieveRule(idx) gives the same kind/text/list id for every index, cold and cached, typed retrieval consistent; String and File backings give identical sequences and identical Network/DNS/Cosmetic engine answers. Non-trivial = >=1 rule yielded and >=2 of {CRLF, line >=4095 bytes, non-ASCII byte, invalid/NUL line}; distinct by content hash.",
+                "Oracle: scanned (kind, text, list id, index) sequence == reference parse (split after every LF, NewRule per line, index = id<<32 | offset); indexes pairwise distinct; after the scan RetrieveRule(idx) gives the same kind/text/list id for every index, cold and cached, typed retrieval consistent; on a second cold storage a rule is retrieved, all lists are scanned again and the rule starting 4096 bytes later is retrieved for the first time (content family of 32-byte lines); on a third cold storage four goroutines retrieve every index at once from different ends (yield hook between seek and read); String and File backings give identical sequences and identical Network/DNS/Cosmetic engine answers. Non-trivial = >=1 rule yielded and >=2 of {CRLF, line >=4095 bytes, non-ASCII byte, invalid/NUL line}; distinct by content hash.",
         "technique": "round-trip and differential property-based testing (rapid) + native fuzzing: scan vs reference parse vs retrieve, String vs File",
         "level_text": "Generated and coverage-guided search over list contents with a line-by-line reference parse and a scan/retrieve round trip.",
-        "level_note": "Trusted: rules.NewRule for a single line (C12's subject); retrieval is only exercised after the scan finishes, as every engine constructor does.",
+        "level_note": "Trusted: rules.NewRule for a single line (C12's subject); retrieval never runs WHILE a scanner is between two Scan calls (scanner and retrieval share the file offset), as with every engine constructor.",
         "assumptions": COMMON_ASSUME + ["list ids fit in 32 bits and are distinct; list offsets stay below 2^31"],
     },
     "C12": {
         "shards": (4, 16),
         "fuzz": [("FuzzC12", 180)],
-        "rule": "rapid: (1) lines: rules rendered from the modifier grammar, a deterministic sample of the three bundled lists, the C11 line pool, short hostile constants (1-2 character patterns, lone markers, unbalanced regexes, empty modifier values) and random bytes, each with 0..3 byte-level mutations (insert a syntax token, delete, bit flip, truncate); every accepted line is matched against 2..5 generated requests (forcing the lazily compiled pattern) and loaded into Engine/NetworkEngine/DNSEngine which are queried; (2) inertness: 3..25 valid rules (network, hosts, cosmetic) with 0..10 noise lines (blank, comments, rejected lines; verified to be non-rules) inserted at generated positions and optional LF->CRLF switching. thorough adds native fuzzing of (line, url, source, host). "
+        "rule": "rapid: (1) lines: rules rendered from the modifier grammar, a deterministic sample of the three bundled lists, the C11 line pool, short hostile constants (1-2 character patterns, lone markers, unbalanced regexes, empty modifier values) and random bytes, each with 0..3 byte-level mutations (insert a syntax token, delete, bit flip, truncate); every accepted line is matched against 2..5 generated requests (forcing the lazily compiled pattern) and loaded into Engine/NetworkEngine/DNSEngine which are queried; (2) inertness: 3..25 valid rules (network, hosts, cosmetic) with 0..10 noise lines (blank, comments, rejected lines; verified to be non-rules) inserted at generated positions and optional LF->CRLF switching; comments are recognised by the documented syntax at text level ('!...' or '#...' not opening with a cosmetic-rule marker, incl. '#@ x', '#?x', '#$ x', '#%x' and invalid UTF-8), the parser must yield no rule for them. thorough adds native fuzzing of (line, url, source, host). "
                 "Oracle: no panic; nil for blank/comment only, else an error, else Text()==TrimSpace(line) and the given list id; answers (MatchAll texts, basic verdict, cosmetic option, DNS result incl. rewrites and host rules, cosmetic selectors) identical with and without noise. Non-trivial = line parsed into a rule (then matched), or a noise/CRLF case whose answers are non-empty; distinct by line / noisy text.",
         "technique": "grammar- and mutation-based property-based testing (rapid) + native coverage-guided fuzzing; crash oracle plus metamorphic inert-line relation",
         "level_text": "Generated and coverage-guided search for a crashing line/request and for a result change caused by inert lines.",
-        "level_note": "Trusted: rules.NewRule as the definition of 'rejected line'. Non-termination would show as the test timeout (reported as inconclusive, exit 2).",
+        "level_note": "Trusted: rules.NewRule as the definition of 'rejected line' (not of 'comment': that is decided on the text). Non-termination would show as the test timeout (reported as inconclusive, exit 2).",
         "assumptions": COMMON_ASSUME + ["a line contains no line feed", "callers check the error before using the returned rule"],
     },
     "C13": {
         "shards": (4, 16),
-        "rule": "rapid histories (sequence generated as one shrinkable value): lists (String or File backed, 1..3 lists, all tables populated, hosts lines, cosmetic rules, $dnsrewrite rules and exceptions, plus field-sensitive rules that match iff client IP / client name / tag / record type / source has a given value) and 10..60 (thorough ..200) steps over ONE long-lived Engine+NetworkEngine+DNSEngine: queries built from the rules, bursts that toggle exactly one client field between otherwise equal queries, repeats of earlier queries, derived-result calls (DNSRewrites, DNSRewritesAll, GetDNSBasicRule, GetBasicResult, GetCosmeticOption) on OLD result objects, queries whose request object the caller mutates afterwards. "
-                "Oracle: answer at each step == answer of a fresh storage+engines built from the same text for that query alone (canonical snapshot: sorted rule texts per field, flags, effective rewrites, cosmetic selectors); invariant after every step: snapshots of all earlier result objects unchanged. Non-trivial = history repeats a query after a query with different client fields, or calls a derived-result method on an old result; distinct by history hash.",
+        "rule": "rapid histories (sequence generated as one shrinkable value): lists (String or File backed, 1..3 lists, all tables populated, hosts lines, cosmetic rules, $dnsrewrite rules and exceptions, plus field-sensitive rules that match iff client IP / client name / tag / record type / source has a given value) and 10..60 (thorough ..200) steps over ONE long-lived Engine+NetworkEngine+DNSEngine: queries built from the rules, bursts that toggle exactly one client field between otherwise equal queries, repeats of earlier queries, derived-result calls (DNSRewrites, DNSRewritesAll, GetDNSBasicRule, GetBasicResult, GetCosmeticOption) on OLD result objects, queries whose request object the caller mutates afterwards; the same DNS name in several letter cases in a row; rule blocks for the $domain buckets of a domain and its sub-domain, CNAME rewrites differing in letter case, per-page referrer exceptions, each with aimed question sequences; regex rules whose text is new to the process (ids from a process-wide counter, answers compared modulo the id) incl. one expression in a case-sensitive and a case-insensitive rule. "
+                "Oracle: answer at each step == answer of a fresh storage+engines built from the same text for that query alone (canonical snapshot: sorted rule texts per field, flags, effective rewrites, cosmetic selectors); invariant after every step: snapshots of all earlier result objects unchanged (snapshots include the parsed rewrite data of the rules, read before and after the derived-result methods); the questions touching the generated regex rules are asked again in the OPPOSITE order to fresh engines over lists with the expressions renamed apart and must get the same sets of matching rules (state that outlives an engine). Non-trivial = history repeats a query after a query with different client fields, or calls a derived-result method on an old result; distinct by history hash.",
         "technique": "stateful/model-based property-based testing (rapid): long-lived engine vs fresh engine per query, history invariant on earlier results",
         "level_text": "Sampled histories with a fresh-engine model; field toggling is built into the generator because unsteered histories miss pooled-request leaks.",
         "level_note": "Trusted: engine construction itself is deterministic (a fresh engine is the model).",
@@ -204,7 +204,7 @@ PROPS = {
     "C20": {
         "shards": (4, 16),
         "fuzz": [("FuzzC20", 60)],
-        "rule": "rapid: bodies of 0..48 KiB assembled from segments (ASCII, high-byte runs, all 256 byte values) and 0..4 markers (</head, <link, <style, <script in any letter case, truncated and near-miss markers) with segment lengths that put a marker before, within +-12 bytes of, and beyond the 16 KiB window, also +-8 around the half window for high-byte prefixes (which double when transcoded); plain or gzip Content-Encoding; CSP headers; stale declared length; thorough adds native fuzzing of the body. "
+        "rule": "rapid: bodies of 0..48 KiB assembled from segments (ASCII, high-byte runs, all 256 byte values) and 0..4 markers (</head, <link, <style, <script in any letter case, truncated and near-miss markers) with segment lengths that put a marker before, within +-12 bytes of, and beyond the 16 KiB window, also +-8 around the half window for high-byte prefixes (which double when transcoded); plain or gzip Content-Encoding (one or 2..4 concatenated members); CSP headers; stale or absent (-1) declared length; optionally preceded by a response whose gzip body is cut off (its filtering fails); thorough adds native fuzzing of the body. "
                 "Oracle (through the verif hook VerifFilterHTML): first marker at original offset i: i>=16384 or none -> output == body; i and its Latin-1->UTF-8 transcoded offset < 16384 -> output == body[:i]+tag+body[i:]; in between either is accepted (counted 'ambiguous-window-unit'); ContentLength == len(output); Content-Encoding removed. Non-trivial = high byte before the marker, marker within 8 bytes of the window edge, or gzip; distinct by (body, gzip).",
         "technique": "property-based testing (rapid) + native fuzzing with a byte-exact reconstruction oracle",
         "level_text": "Generated and coverage-guided search for a body whose bytes are not preserved or whose tag lands elsewhere.",
